@@ -12,6 +12,8 @@ import Mathlib.Tactic.LinearCombination
 import Mathlib.Tactic.NormNum
 import Mathlib.Tactic.Abel
 import Mathlib.Algebra.Algebra.Bilinear
+import Mathlib.Data.Fin.VecNotation
+import Mathlib.Algebra.BigOperators.Fin
 import BronVerif.Model.Sig
 /-!
 # C15 — single-party signatures verify exactly for the signed message and key (property theorems)
@@ -71,11 +73,19 @@ theorem ecdsa_recover (lift : F → Nat → Option G) (g : G) (d k e r : F) (v :
     (hk : k ≠ 0) (hr : r ≠ 0) (hl : lift r v = some (k • g)) :
     ecdsaRecover lift g e r (k⁻¹ * (e + r * d)) v = some (d • g) := by
   simp only [ecdsaRecover, hl, Option.map_some, Option.some.injEq]
-  have : r⁻¹ • ((k⁻¹ * (e + r * d)) • k • g + -(e • g)) = (r⁻¹ * (k⁻¹ * (e + r * d) * k - e)) • g := by module
+  have : (r⁻¹ * (k⁻¹ * (e + r * d))) • k • g + -((r⁻¹ * e) • g) = (r⁻¹ * (k⁻¹ * (e + r * d) * k - e)) • g := by module
   rw [this]
   congr 1
   field_simp
   ring
+
+/-- the two-multiplication form of the model is the library's formula `(s•R − e•g)•r⁻¹` -/
+theorem ecdsaRecover_eq (lift : F → Nat → Option G) (g : G) (e r s : F) (v : Nat) :
+    ecdsaRecover lift g e r s v = (lift r v).map fun R => r⁻¹ • (s • R + -(e • g)) := by
+  unfold ecdsaRecover
+  congr 1
+  funext R
+  module
 
 /-- negating `s` negates the recomputed point -/
 theorem ecdsaPoint_neg (g pk : G) (e r s : F) :
@@ -190,6 +200,121 @@ theorem ecdsa_reject_digest (xr : G → F) (hxr : ∀ P, xr (-P) = xr P)
     · rw [h2]; exact neg_ne_zero.mpr hR
     · rw [h2, hxr]
 
+/-! ### Adversarially constructed triples: the verifier is characterised exactly, and
+"the recovered key equals the supplied key" is *not* a substitute for the verification equation -/
+
+/-- **exact characterisation of `ecdsa.Verifier.Verify`** (default and strict, with or without a recovery
+id): low-S when strict; when `v` is present the key recovered from `(r, s, v)` is the supplied key; and
+the textbook equation `r, s ≠ 0`, `R = (e s⁻¹)•g + (r s⁻¹)•pk ≠ 0`, `x(R) = r` -/
+theorem ecdsa_verify_iff (xr : G → F) (lift : F → Nat → Option G) (low : F → Bool) (strict : Bool)
+    (g pk : G) (e r s : F) (v : Option Nat) :
+    ecdsaVerify xr lift low strict g pk e (r, s, v) = true ↔
+      (strict = true → low s = true) ∧
+      (∀ v', v = some v' → ecdsaRecover lift g e r s v' = some pk) ∧
+      r ≠ 0 ∧ s ≠ 0 ∧ ecdsaPoint g pk e r s ≠ 0 ∧ xr (ecdsaPoint g pk e r s) = r := by
+  cases v with
+  | none => cases strict <;> simp [ecdsaVerify, ecdsaCore_iff, and_assoc]
+  | some v' => cases strict <;> simp [ecdsaVerify, ecdsaCore_iff, and_assoc]
+
+/-- the point the verifier recomputes under the *recovered* key is the lifted point itself -/
+theorem ecdsaPoint_recover (g R : G) (e r s : F) (hr : r ≠ 0) (hs : s ≠ 0) :
+    ecdsaPoint g ((r⁻¹ * s) • R + -((r⁻¹ * e) • g)) e r s = R := by
+  unfold ecdsaPoint
+  have h : (e * s⁻¹) • g + (r * s⁻¹) • ((r⁻¹ * s) • R + -((r⁻¹ * e) • g)) =
+      ((e * s⁻¹) - (r * s⁻¹ * r⁻¹ * e)) • g + (r * s⁻¹ * r⁻¹ * s) • R := by module
+  rw [h]
+  have h1 : r * s⁻¹ * r⁻¹ * s = 1 := by field_simp
+  have h2 : e * s⁻¹ - r * s⁻¹ * r⁻¹ * e = 0 := by field_simp; ring
+  rw [h1, h2, zero_smul, one_smul, zero_add]
+
+/-- **recover, then verify — without x-overflow wrap.**  If the point `R` lifted from `(r, v)` is non-zero
+and its x-coordinate reduces to `r` (for `v ∈ {0,1}`: always; for `v ∈ {2,3}`: exactly when
+`r + n < p`, see `x_nowrap`), then `(r, s, v)` is a valid signature under the key recovered from it: the
+default verifier accepts it with and without the recovery id -/
+theorem recover_then_verify (xr : G → F) (lift : F → Nat → Option G) (low : F → Bool) (g R : G)
+    (e r s : F) (v : Nat) (hr : r ≠ 0) (hs : s ≠ 0) (hl : lift r v = some R) (hR : R ≠ 0) (hx : xr R = r) :
+    ∃ Q, ecdsaRecover lift g e r s v = some Q ∧
+      ecdsaCore xr g Q e r s = true ∧
+      ecdsaVerify xr lift low false g Q e (r, s, some v) = true ∧
+      ecdsaVerify xr lift low false g Q e (r, s, none) = true := by
+  have hrec : ecdsaRecover lift g e r s v = some ((r⁻¹ * s) • R + -((r⁻¹ * e) • g)) := by
+    simp only [ecdsaRecover, hl, Option.map_some]
+  refine ⟨(r⁻¹ * s) • R + -((r⁻¹ * e) • g), hrec, ?_⟩
+  have hc : ecdsaCore xr g ((r⁻¹ * s) • R + -((r⁻¹ * e) • g)) e r s = true := by
+    rw [ecdsaCore_iff, ecdsaPoint_recover g R e r s hr hs]
+    exact ⟨hr, hs, hR, hx⟩
+  refine ⟨hc, ?_, ?_⟩
+  · rw [ecdsa_verify_iff]
+    rw [ecdsaCore_iff] at hc
+    exact ⟨fun h => Bool.noConfusion h, fun v' hv => by cases hv; exact hrec, hc⟩
+  · rw [ecdsa_verify_iff]
+    rw [ecdsaCore_iff] at hc
+    exact ⟨fun h => Bool.noConfusion h, fun _ hv => by simp at hv, hc⟩
+
+/-- **equality of the recovered key alone does not imply validity.**  If the x-coordinate of the lifted
+point does *not* reduce to `r` (the x-overflow bit is set and `r + n` wraps around `p`, see `x_wrap_ne`),
+the key `Q` recovered from `(r, s, v)` trivially "matches", yet `(r, s)` is not a signature under `Q`:
+the equation fails, and the verifier — with or without `v` — must reject.  A verifier that returns
+success as soon as the recovered key equals the supplied one accepts a triple anyone can fabricate. -/
+theorem ecdsa_recover_eq_not_sufficient (xr : G → F) (lift : F → Nat → Option G) (low : F → Bool)
+    (strict : Bool) (g R : G) (e r s : F) (v : Nat) (hr : r ≠ 0) (hs : s ≠ 0)
+    (hl : lift r v = some R) (hx : xr R ≠ r) :
+    ∃ Q, ecdsaRecover lift g e r s v = some Q ∧
+      ecdsaCore xr g Q e r s = false ∧
+      ecdsaVerify xr lift low strict g Q e (r, s, some v) = false ∧
+      ecdsaVerify xr lift low strict g Q e (r, s, none) = false := by
+  have hrec : ecdsaRecover lift g e r s v = some ((r⁻¹ * s) • R + -((r⁻¹ * e) • g)) := by
+    simp only [ecdsaRecover, hl, Option.map_some]
+  refine ⟨(r⁻¹ * s) • R + -((r⁻¹ * e) • g), hrec, ?_⟩
+  have hcP : ¬ (r ≠ 0 ∧ s ≠ 0 ∧ ecdsaPoint g ((r⁻¹ * s) • R + -((r⁻¹ * e) • g)) e r s ≠ 0 ∧
+      xr (ecdsaPoint g ((r⁻¹ * s) • R + -((r⁻¹ * e) • g)) e r s) = r) := by
+    rw [ecdsaPoint_recover g R e r s hr hs]
+    exact fun h => hx h.2.2.2
+  refine ⟨?_, ?_, ?_⟩
+  · rw [Bool.eq_false_iff, Ne, ecdsaCore_iff]; exact hcP
+  · rw [Bool.eq_false_iff, Ne, ecdsa_verify_iff]; exact fun h => hcP h.2.2
+  · rw [Bool.eq_false_iff, Ne, ecdsa_verify_iff]; exact fun h => hcP h.2.2
+
+/-- what the driver's `ecdsa.forge` handler expects of the library (`Sig.ecdsaForge`) is the model verifier:
+under the recovered key `Q` the default verifier returns the textbook verdict `c` with and without `v`,
+the strict verifier `low s ∧ c` -/
+theorem ecdsaForge_spec (xr : G → F) (lift : F → Nat → Option G) (low : F → Bool) (g : G) (e r s : F)
+    (v : Nat) (Q : G) (c cs : Bool) (h : ecdsaForge xr lift low g e r s v = some (Q, c, cs)) :
+    ecdsaRecover lift g e r s v = some Q ∧
+    c = ecdsaCore xr g Q e r s ∧
+    ecdsaVerify xr lift low false g Q e (r, s, some v) = c ∧
+    ecdsaVerify xr lift low false g Q e (r, s, none) = c ∧
+    ecdsaVerify xr lift low true g Q e (r, s, some v) = cs ∧
+    ecdsaVerify xr lift low true g Q e (r, s, none) = cs := by
+  unfold ecdsaForge at h
+  cases hrec : ecdsaRecover lift g e r s v with
+  | none => simp [hrec] at h
+  | some Q' =>
+    simp only [hrec, Option.map_some, Option.some.injEq, Prod.mk.injEq] at h
+    obtain ⟨rfl, rfl, rfl⟩ := h
+    simp [ecdsaVerify, hrec]
+
+/-- a signature that carries a recovery id is rejected under every key other than the recovered one -/
+theorem ecdsa_verify_other_key (xr : G → F) (lift : F → Nat → Option G) (low : F → Bool) (strict : Bool)
+    (g Q pk : G) (e r s : F) (v : Nat) (h : ecdsaRecover lift g e r s v = some Q) (hne : pk ≠ Q) :
+    ecdsaVerify xr lift low strict g pk e (r, s, some v) = false := by
+  have : ¬ (Q = pk) := fun h' => hne h'.symm
+  simp [ecdsaVerify, h, this]
+
+/-- **no wrap**: for `r < n` and `r + j·n < p` the base-field element `r + j·n` *is* the integer `r + j·n`,
+and it reduces to `r` modulo `n` (`j = 1`: the x-overflow bit of the recovery id) -/
+theorem x_nowrap (p n r j : ℕ) (hr : r < n) (hlt : r + j * n < p) : (r + j * n) % p % n = r := by
+  rw [Nat.mod_eq_of_lt hlt, Nat.add_mul_mod_self_right, Nat.mod_eq_of_lt hr]
+
+/-- **wrap**: for `r < n < p ≤ r + n` the base-field element `r + n` is the integer `r + n − p`, which is
+below `n` and different from `r`: the x-coordinate used by `RecoverPublicKey` does not reduce to `r` -/
+theorem x_wrap_ne (p n r : ℕ) (hr : r < n) (hnp : n < p) (hge : p ≤ r + n) : (r + n) % p % n ≠ r := by
+  have h1 : (r + n) % p = r + n - p := by
+    rw [Nat.mod_eq_sub_mod hge, Nat.mod_eq_of_lt (by omega)]
+  have h2 : r + n - p < n := by omega
+  rw [h1, Nat.mod_eq_of_lt h2]
+  omega
+
 /-! ## Schnorr family -/
 
 theorem schnorrVerify_iff (tf : G → Bool) (neg : Bool) (g pk R : G) (e s : F) :
@@ -278,6 +403,61 @@ theorem schnorr_reject_pk {M : Type} (H : G × G × M → F) (S : Set (G × G ×
     exact ⟨fun h' => ⟨h'.1, (neg_injective (add_left_cancel h'.2.2.2.2)).symm⟩,
       fun h' => ⟨h'.1, h.2.1, h.2.2.1, h.2.2.2.1, by rw [h'.2]⟩⟩
 
+/-! ### Adversarially constructed Schnorr signatures -/
+
+/-- **forgery attempt without the secret key.**  For freely chosen `s`, `e'` the commitment
+`R = schnorrCraftR … e' s` satisfies the verification equation *for the challenge `e'`*; a verifier that
+recomputes the challenge `e` accepts exactly when `(e − e')•pk = 0`, i.e. (prime order, `pk = x•g`,
+`x ≠ 0`) when the hash of the fabricated `R` happens to be `e'` -/
+theorem schnorr_crafted_iff (tf : G → Bool) (neg : Bool) (g : G) (hg : ∀ a : F, a • g = 0 → a = 0)
+    (x : F) (hx : x ≠ 0) (e e' s : F) :
+    schnorrVerify tf neg g (x • g) (schnorrCraftR neg g (x • g) e' s) e s = true ↔
+      s ≠ 0 ∧ schnorrCraftR neg g (x • g) e' s ≠ 0 ∧ tf (schnorrCraftR neg g (x • g) e' s) = true ∧ e = e' := by
+  rw [schnorrVerify_iff]
+  have key : (s • g = schnorrCraftR neg g (x • g) e' s + (if neg then -(e • x • g) else e • x • g)) ↔ e = e' := by
+    unfold schnorrCraftR
+    constructor
+    · intro h
+      have h0 : ((e - e') * x) • g = 0 := by
+        cases neg
+        · simp only [Bool.false_eq_true, if_false] at h
+          have : ((e - e') * x) • g = (s • g + -(e' • x • g) + e • x • g) - s • g := by module
+          rw [this, ← h, sub_self]
+        · simp only [if_true] at h
+          have : ((e - e') * x) • g = -((s • g + e' • x • g + -(e • x • g)) - s • g) := by module
+          rw [this, ← h, sub_self, neg_zero]
+      rcases mul_eq_zero.mp (hg _ h0) with h1 | h1
+      · exact sub_eq_zero.mp h1
+      · exact absurd h1 hx
+    · rintro rfl
+      cases neg <;> simp
+  constructor
+  · rintro ⟨_, h2, h3, h4, h5⟩
+    exact ⟨h2, h3, h4, key.mp h5⟩
+  · rintro ⟨h2, h3, h4, h5⟩
+    exact ⟨fun h => hx (hg x h), h2, h3, h4, key.mpr h5⟩
+
+/-- **the other response sign is rejected**: a signature made for `s = k ± e x` passes the verifier
+configured with the opposite sign only if `(e + e) x = 0` (characteristic ≠ 2: `e = 0`) -/
+theorem schnorr_wrong_sign (tf : G → Bool) (neg : Bool) (g : G) (hg : ∀ a : F, a • g = 0 → a = 0)
+    (x k e : F) (hx : x ≠ 0)
+    (h : schnorrVerify tf (!neg) g (x • g) (k • g) e (schnorrResponse neg x k e) = true) :
+    e + e = 0 := by
+  rw [schnorrVerify_iff] at h
+  have h5 := h.2.2.2.2
+  unfold schnorrResponse at h5
+  have h0 : ((e + e) * x) • g = 0 := by
+    cases neg
+    · simp only [Bool.not_false, if_true, Bool.false_eq_true, if_false] at h5
+      have : ((e + e) * x) • g = (k + e * x) • g - (k • g + -(e • x • g)) := by module
+      rw [this, h5, sub_self]
+    · simp only [Bool.not_true, Bool.false_eq_true, if_false, if_true] at h5
+      have : ((e + e) * x) • g = -((k + -(e * x)) • g - (k • g + e • x • g)) := by module
+      rw [this, h5, sub_self, neg_zero]
+  rcases mul_eq_zero.mp (hg _ h0) with h1 | h1
+  · exact h1
+  · exact absurd h1 hx
+
 /-! ### BIP-340 (x-only keys and nonces, even-y rules) -/
 
 theorem bip340Verify_iff {X : Type} [DecidableEq X] (x : G → X) (evenY : G → Bool) (g pk R : G) (e s : F) :
@@ -334,6 +514,21 @@ theorem schnorr_reject_s_bip340 {X : Type} [DecidableEq X] (x : G → X) (evenY 
   unfold bip340Point at this
   have h0 : (s' - s) • g = 0 := by rw [sub_smul, add_right_cancel this, sub_self]
   exact hne (sub_eq_zero.mp (hg _ h0))
+
+/-- **BIP-340 nonce parity rule**: a signature computed as `s = k + e d` from a nonce whose point `k•g`
+has odd y — i.e. without the negation step of the signing algorithm — is rejected, although it satisfies
+the plain Schnorr equation (`d•g` is the even-y key the verifier lifts to) -/
+theorem bip340_reject_odd_nonce {X : Type} [DecidableEq X] (x : G → X) (evenY : G → Bool) (g R : G)
+    (d k e : F) (hP : evenY (d • g) = true) (hodd : evenY (k • g) = false) :
+    bip340Point evenY g (d • g) e (k + e * d) = k • g ∧
+    bip340Verify x evenY g (d • g) R e (k + e * d) = false := by
+  have hpt : bip340Point evenY g (d • g) e (k + e * d) = k • g := by
+    unfold bip340Point liftEven
+    rw [if_pos hP]
+    module
+  refine ⟨hpt, ?_⟩
+  rw [Bool.eq_false_iff, Ne, bip340Verify_iff, hpt, hodd]
+  simp
 
 /-- x-only semantics: `−pk` is the same BIP-340 key (the verifier lifts to even y) -/
 theorem bip340_neg_key {X : Type} [DecidableEq X] (x : G → X) (evenY : G → Bool)
@@ -406,6 +601,41 @@ theorem bls_pop (B : K →ₗ[F] S →ₗ[F] T) (gK : K) (hB : ∀ y : S, B gK y
     blsVerify B gK (sk • gK) (Hpop (sk • gK)) π ↔ π = blsSign sk (Hpop (sk • gK)) :=
   bls_verify_iff B gK hB sk _ π
 
+/-- **a signature for another hash point** (another message, another domain-separation tag, the
+proof-of-possession tag, a missing or foreign key prefix) verifies iff `sk • (h' − h) = 0`; for a
+non-zero key over a field: iff the two hash points coincide -/
+theorem bls_verify_other_point (B : K →ₗ[F] S →ₗ[F] T) (gK : K) (hB : ∀ y : S, B gK y = 0 → y = 0)
+    (sk : F) (hsk : sk ≠ 0) (hm hm' : S) :
+    blsVerify B gK (sk • gK) hm (blsSign sk hm') ↔ hm' = hm := by
+  rw [bls_verify_iff B gK hB]
+  unfold blsSign
+  constructor
+  · intro h
+    have h0 : sk • (hm' - hm) = 0 := by rw [smul_sub, h, sub_self]
+    rcases smul_eq_zero.mp h0 with h1 | h1
+    · exact absurd h1 hsk
+    · exact sub_eq_zero.mp h1
+  · rintro rfl; rfl
+
+/-- **rogue key**: for `pk₂ = x•g − pk₁` the forged `σ = x•H(m)` satisfies the *fast* aggregate equation
+`e(pk₁ + pk₂, H(m)) = e(g, σ)` — which is why that equation is only used behind proofs of possession
+(and why the basic scheme demands distinct messages and the augmented scheme hashes `pk ‖ m`) -/
+theorem bls_rogue_key_fast_aggregate (B : K →ₗ[F] S →ₗ[F] T) (gK : K) (a x : F) (hm : S) :
+    blsVerify B gK (a • gK + (x - a) • gK) hm (blsSign x hm) := by
+  have : a • gK + (x - a) • gK = x • gK := by module
+  rw [this]
+  unfold blsVerify blsSign
+  rw [map_smul, LinearMap.smul_apply, ← map_smul]
+
+/-- … and with per-signer hash points (message augmentation) the same forgery is accepted only on the
+coincidence `a•h₁ + (x−a)•h₂ = x•h` -/
+theorem bls_rogue_key_aggregate_iff (B : K →ₗ[F] S →ₗ[F] T) (gK : K) (hB : ∀ y : S, B gK y = 0 → y = 0)
+    (a x : F) (h h₁ h₂ : S) :
+    blsAggVerify B gK (fun i : Fin 2 => (![a, x - a] i) • gK) ![h₁, h₂] (blsSign x h) ↔
+      x • h = a • h₁ + (x - a) • h₂ := by
+  rw [bls_aggregate_iff B gK hB]
+  simp [blsSign, Fin.sum_univ_two]
+
 /-- the executable aggregation (`foldl (+) 0`) is the sum -/
 theorem blsAggregate_eq_sum (xs : List S) : blsAggregate xs = xs.sum := by
   unfold blsAggregate
@@ -430,6 +660,45 @@ example : ecdsaRecover (fun (r : ℚ) _ => some r) (1 : ℚ) 5 3 ((3 : ℚ)⁻¹
 example : schnorrVerify (fun _ => true) false (1 : ℚ) ((2 : ℚ) • (1 : ℚ)) ((3 : ℚ) • (1 : ℚ)) 5 (schnorrResponse false (2 : ℚ) 3 5) = true :=
   schnorr_sign_verify _ false 1 (by intro a h; simpa using h) 2 3 5 (by norm_num) (by norm_num)
     (by norm_num [schnorrResponse]) rfl
+
+/-- crafted triple, no wrap (`xr = id`, `lift r v = r`): the recovered key verifies -/
+example : ∃ Q, ecdsaRecover (fun (r : ℚ) _ => some r) (1 : ℚ) 5 3 7 2 = some Q ∧
+    ecdsaCore (id : ℚ → ℚ) 1 Q 5 3 7 = true ∧
+    ecdsaVerify id (fun (r : ℚ) _ => some r) (fun _ => true) false 1 Q 5 (3, 7, some 2) = true ∧
+    ecdsaVerify id (fun (r : ℚ) _ => some r) (fun _ => true) false 1 Q 5 (3, 7, none) = true :=
+  recover_then_verify id _ _ 1 3 5 3 7 2 (by norm_num) (by norm_num) rfl (by norm_num) rfl
+
+/-- crafted triple, with wrap (the lifted point is `r + 1`, whose "x-coordinate" is not `r`): the recovered
+key matches by construction and the signature is invalid -/
+example : ∃ Q, ecdsaRecover (fun (r : ℚ) _ => some (r + 1)) (1 : ℚ) 5 3 7 2 = some Q ∧
+    ecdsaCore (id : ℚ → ℚ) 1 Q 5 3 7 = false ∧
+    ecdsaVerify id (fun (r : ℚ) _ => some (r + 1)) (fun _ => true) false 1 Q 5 (3, 7, some 2) = false ∧
+    ecdsaVerify id (fun (r : ℚ) _ => some (r + 1)) (fun _ => true) false 1 Q 5 (3, 7, none) = false :=
+  ecdsa_recover_eq_not_sufficient id _ _ false 1 (3 + 1) 5 3 7 2 (by norm_num) (by norm_num) rfl (by norm_num)
+
+/-- secp256k1-shaped toy numbers: `n = 11 < p = 13`; `r = 1` does not wrap, `r = 5` does (`16 mod 13 = 3`) -/
+example : (1 + 1 * 11) % 13 % 11 = 1 := x_nowrap 13 11 1 1 (by norm_num) (by norm_num)
+example : (5 + 11) % 13 % 11 ≠ 5 := x_wrap_ne 13 11 5 (by norm_num) (by norm_num) (by norm_num)
+
+example : ecdsaVerify (id : ℚ → ℚ) (fun (r : ℚ) _ => some r) (fun _ => true) false 1 (9 : ℚ) 5 (3, 7, some 0) = false :=
+  ecdsa_verify_other_key id _ _ false 1 (3⁻¹ * 7 * 3 + -(3⁻¹ * 5 * 1)) 9 5 3 7 0 (by simp [ecdsaRecover]) (by norm_num)
+
+/-- a fabricated commitment is accepted only if the recomputed challenge equals the chosen one -/
+example : schnorrVerify (fun _ => true) false (1 : ℚ) ((2 : ℚ) • (1 : ℚ))
+    (schnorrCraftR false (1 : ℚ) ((2 : ℚ) • (1 : ℚ)) 3 11) 4 11 = false := by
+  have h := schnorr_crafted_iff (F := ℚ) (G := ℚ) (fun _ => true) false 1 (by intro a h; simpa using h) 2
+    (by norm_num) 4 3 11
+  rw [Bool.eq_false_iff]
+  intro h'
+  have := (h.mp h').2.2.2
+  norm_num at this
+
+example : bip340Verify (id : ℚ → ℚ) (fun P => decide (0 ≤ P)) (1 : ℚ) ((2 : ℚ) • (1 : ℚ)) (-3) (5 : ℚ) (-3 + 5 * 2) = false :=
+  (bip340_reject_odd_nonce (F := ℚ) (G := ℚ) id (fun P => decide (0 ≤ P)) 1 (-3) 2 (-3) 5 (by norm_num) (by norm_num)).2
+
+example : ¬ blsVerify (LinearMap.mul ℚ ℚ) (1 : ℚ) ((2 : ℚ) • (1 : ℚ)) 7 (blsSign (2 : ℚ) (8 : ℚ)) := by
+  rw [bls_verify_other_point (LinearMap.mul ℚ ℚ) 1 (by intro y h; simpa using h) 2 (by norm_num)]
+  norm_num
 
 /-- BLS: `B x y = x * y` on `ℚ` is bilinear and non-degenerate at `1` -/
 example : blsVerify (LinearMap.mul ℚ ℚ) (1 : ℚ) ((2 : ℚ) • (1 : ℚ)) 7 (blsSign (2 : ℚ) (7 : ℚ)) :=
